@@ -5,9 +5,10 @@ package router
 // Overlaid into /repo/internal/router by /verif/check C20. Builds a route with the REAL builder calls in
 // the given order, sends a request carrying one credential form through the REAL ServeHTTP with a recording
 // handler, and reports the resulting flags, whether the handler ran and the HTTP status.
-// VERIF_IN JSON {"cases":[{"calls":[["Authentication",true],["Permissions",["p1"]],...],"cred":"none"}]}
+// VERIF_IN JSON {"cases":[{"calls":[["Authentication",true],["Permissions",["p1"]],["ValidateUsing","@credentials"],...],
+//                          "cred":"none","body":"valid|invalid|empty|absent"}]}
 // VERIF_OUT JSON {"users":{name:[perms]}, "lookup0":[perms granted to user ""],
-//                 "results":[{"must":b,"can":b,"light":b,"perms":[..]|null,"invoked":b,"status":n,
+//                 "results":[{"must":b,"can":b,"light":b,"perms":[..]|null,"valid":b,"invoked":b,"status":n,
 //                             "sauth":b,"sadmin":b,"suser":s}]}
 // (the package's own TestMain in auth_test.go installs a file-backed auth service; the users are created here)
 
@@ -16,6 +17,7 @@ import (
 	"net/http"
 	"net/http/httptest"
 	"os"
+	"strings"
 	"testing"
 	"time"
 
@@ -24,11 +26,13 @@ import (
 	"github.com/tucats/ego/internal/defs"
 	"github.com/tucats/ego/internal/language/tokens"
 	"github.com/tucats/ego/internal/server/auth"
+	"github.com/tucats/ego/internal/util/validate"
 )
 
 type verifGateCase struct {
 	Calls [][2]any `json:"calls"`
 	Cred  string   `json:"cred"`
+	Body  string   `json:"body"`
 }
 
 type verifGateOut struct {
@@ -36,6 +40,7 @@ type verifGateOut struct {
 	Can     bool     `json:"can"`
 	Light   bool     `json:"light"`
 	Perms   []string `json:"perms"`
+	Valid   bool     `json:"valid"`
 	Invoked bool     `json:"invoked"`
 	Status  int      `json:"status"`
 	SAuth   bool     `json:"sauth"`
@@ -68,6 +73,10 @@ func TestVerifGate(t *testing.T) {
 	}
 
 	// ValidatePassword accepts a password only for users holding ego.logon or ego.root
+	if err := validate.Reflect("@credentials", defs.Credentials{}); err != nil {
+		t.Fatal(err)
+	}
+
 	verifAddUser(t, "alice", "pw-alice", []string{defs.LogonPermission, "p1", "p2"})
 	verifAddUser(t, "bob", "pw-bob", []string{defs.LogonPermission})
 	verifAddUser(t, "carol", "pw-carol", []string{defs.LogonPermission, "p1", "p2", "p3"})
@@ -122,6 +131,8 @@ func TestVerifGate(t *testing.T) {
 				route.LightWeight(call[1].(bool))
 			case "CanAuthenticate":
 				route.CanAuthenticate(call[1].(bool))
+			case "ValidateUsing":
+				route.ValidateUsing(call[1].(string))
 			case "Permissions":
 				ps := []string{}
 				for _, p := range call[1].([]any) {
@@ -139,7 +150,21 @@ func TestVerifGate(t *testing.T) {
 			out.Perms = append([]string{}, route.requiredPermissions...)
 		}
 
+		out.Valid = len(route.validations) > 0
+
 		req := httptest.NewRequest(http.MethodGet, "/verif/gate", nil)
+
+		switch c.Body {
+		case "valid":
+			req = httptest.NewRequest(http.MethodGet, "/verif/gate", strings.NewReader(`{"username":"someone","password":"something"}`))
+		case "invalid":
+			req = httptest.NewRequest(http.MethodGet, "/verif/gate", strings.NewReader(`{"username":17}`))
+		case "absent":
+			req.Body = nil
+		case "empty", "":
+		default:
+			t.Fatalf("unknown body form %q", c.Body)
+		}
 
 		switch c.Cred {
 		case "none":
